@@ -22,7 +22,7 @@ FACADE_KW = _facade_kw()
 def configs(tier, seed=0):
     out = []
     L = 2 if tier == 'quick' else 3
-    for obj in ['gauss-cov-callable', 'gauss-model-mean', 'gmrf-prec-callable', 'lognormal', 'reg-gaussian', 'gamma']:
+    for obj in ['gauss-cov-callable', 'gauss-model-mean', 'gmrf-prec-callable', 'lognormal', 'reg-gaussian', 'gamma', 'likelihood', 'posterior']:
         out.append({'key': 'dist/%s/len%d' % (obj, L), 'kind': 'dist', 'obj': obj, 'len': L})
     for g in ['a', 'b', 'c', 'd', 'e']:
         out.append({'key': 'joint/%s/len%d' % (g, L), 'kind': 'joint', 'graph': g, 'len': L})
@@ -101,6 +101,22 @@ def make_dist(c, name):
         fp = lambda: (flat([o(s=s).gaussian.logd(x), o(s=s2).gaussian.sqrtprec], c), (tuple(o.get_conditioning_variables()), o.name, o.preset))
         ops = {'cond': lambda: o(s=s2), 'cond-gauss-logd': lambda: o(s=s).gaussian.logd(x), 'cond-sqrtprec': lambda: o(s=s2).sqrtprec, 'to_lik': lambda: o(x=x),
                'cond-name': lambda: o(s=s).name}
+        return Obj(o, fp, ops)
+    if name in ('likelihood', 'posterior'):
+        # originals that ARE a likelihood / a posterior (derived copies by conditioning on nothing, then changed)
+        model = cuqi.model.LinearModel(A)
+        ydist = D.Gaussian(mean=model, cov=0.5, name='y', geometry=2)
+        Lk = ydist.to_likelihood(np.array([0.5, -1.0]))
+        z = cm.boxed(c, c.reals('pz', 2), B)
+        if name == 'likelihood':
+            o = Lk
+        else:
+            o = D.Posterior(Lk, D.Gaussian(np.zeros(2), cov=2.0, name='x'))
+        fdstate = lambda: (bool(getattr(o, 'FD_enabled', False)) if not isinstance(getattr(o, 'FD_enabled', False), dict) else tuple(sorted(o.FD_enabled.items())),
+                           tuple(o.get_parameter_names()), core._conc(o._constant) if not core.is_sym(o._constant) else 'sym')
+        fp = lambda: (flat([o.logd(z), o.gradient(z)], c), fdstate())
+        ops = {'noarg': lambda: o(), 'noarg-logd': lambda: o().logd(z), 'noarg-FD': lambda: _fd(o(), z), 'noarg-FD-off': lambda: o().disable_FD(),
+               'grad': lambda: o.gradient(z), 'logd': lambda: o.logd(z)}
         return Obj(o, fp, ops)
     if name == 'gamma':
         o = D.Gamma(shape=lambda a: a, rate=lambda b: b, name='g', geometry=1)
